@@ -74,6 +74,20 @@ def rule_restart_shape(ctx):
         h = fn.expr_of_operand(t["args"][1])
         from_new = h[0] == "call" and str(h[1]).endswith("Clone>::clone") and field_chain(h[2][0])[1] == ["items"] and field_chain(h[2][0])[0][0] == "arg"
         after = asg and all(fn.dominates(a[0], bi) for a in asg)
+        if not (from_new and after) and h[0] == "call" and str(h[1]).endswith("Clone>::clone"):
+            # a clone of the very value that is stored into self.items (`let stream = Arc::new(..); clear(stream.clone());
+            # self.items = stream`): the same handle, whatever the order of the two statements
+            src = peel(h[2][0])
+            while src[0] in ("ref", "deref"):
+                src = peel(src[1])
+            for a_bi, a_si, a_s in asg:
+                if a_si == "term":
+                    continue
+                y = peel(fn.expr_of_rvalue(a_s["rv"]))
+                while y[0] in ("ref", "deref"):
+                    y = peel(y[1])
+                if src[0] == "call" and y[0] == "call" and len(src) > 4 and len(y) > 4 and src[4] == y[4] and str(src[1]).startswith("std::sync::Arc::<T>::new"):
+                    from_new, after = True, True
         if g and all(x[2] in ([None], [1]) for x in g) and from_new and after:
             ctx.ok(site(fn, bi), "snapshot cleared with a clone of the NEW handle, only when clear_snapshot")
         else:
